@@ -10,10 +10,13 @@ def reason(k):
                 "so len(eventBuf) <= max-3 afterwards (1 initially): high >= 1 for every max_event_size >= 3")
     if 'Mask).maskValue|slice|value[prevFinish:m.Re_' in k and 'low<=high' in k:
         return None  # K5
+    if k.startswith('C13.D') and 'timeToBucketID' in k:
+        return ("the divisor is the configured bucket_interval (bucketsMeta.interval is set once by newBucketsMeta from limiterConfig.bucketInterval = config.BucketInterval_); "
+                "Start ends the process unless it is > 0 (checked invariant C13.I rejects-non-positive|BucketInterval_; before fix F11 \"0s\" was accepted and the first event divided by zero)")
     if k.startswith('C13.B'):
         if 'RegexFilter).Apply' in k:
-            return ("indexes come from regexp.FindAllSubmatchIndex: each entry has 2*(NumSubexp+1) elements and the group numbers were verified against NumSubexp when the filter was parsed "
-                    "(cfg.VerifyGroupNumbers); a pair is either (-1,-1), which is skipped, or 0 <= start <= end <= len(src) (library contract, outside the prover)")
+            return ("indexes come from regexp.FindAllSubmatchIndex: each entry has 2*(NumSubexp+1) elements and the group list kept by the filter is the RESULT of cfg.VerifyGroupNumbers "
+                    "(checked invariant C13.I verified-result-stored; before fix F10 the result was ignored); a pair is either (-1,-1), which is skipped, or 0 <= start <= end <= len(src) (library contract, outside the prover)")
         if 'fieldOpNode).Check' in k:
             return "contains_any: the constructor rejects anything but exactly one non-empty value, so values[0] exists"
         if 'logicalNode).Check' in k:
